@@ -46,6 +46,13 @@ def parseVal (s : String) : Option Val :=
   | ["json"] => some (.json [])
   | _ => none
 
+def encSfName : SfName → String
+  | .fixed => "fixed" | .real => "real" | .text => "text" | .boolean => "boolean" | .date => "date" | .time => "time"
+  | .timestampNtz => "timestamp_ntz" | .timestampTz => "timestamp_tz" | .binary => "binary" | .variant => "variant"
+  | .unmapped => "?"
+
+def encDescr (d : SfName × Option Nat × Option Nat) : String := s!"{encSfName d.1},{encOptNat d.2.1},{encOptNat d.2.2}"
+
 def tyFinding (k : Kind) : String :=
   match k with
   | .decimal _ 0 => "C01/number-scale0-decimal"
@@ -62,7 +69,7 @@ def handle : List String → String
   | ["ty", t] =>
     match parseTy t with
     | none => "kind=-"
-    | some k => s!"kind=ok\tduck={encDuck (toDuck k)}\timpl={encPy (pyOf (toDuck k))}\tspec={encPy (connPy k)}\tfinding={tyFinding k}"
+    | some k => s!"kind=ok\tduck={encDuck (toDuck k)}\timpl={encPy (pyOf (toDuck k))}\tspec={encPy (connPy k)}\tfinding={tyFinding k}\tdescr={encDescr (sfDescr (toDuck k))}\tdecl={match declDescr k with | none => "-" | some d => encDescr d}"
   | ["fits", t, v] =>
     match parseTy t, parseVal v with
     | some k, some v =>
